@@ -32,7 +32,11 @@ of the list and `Iterator::next` of the borrowed list iterator `Iter`, which adv
 cursor; private helpers taking `&mut self` need exclusive access and are admitted), no
 occurrence of unchecked-code blocks or impls, `static mut`, statics, `Cell`/`RefCell`/`UnsafeCell`, `Rc`, raw pointers,
 atomics, locks, thread-locals or manual `Send`/`Sync` impls anywhere in the sources
-(`Gen.hazards = []`), and no field of any type mentions such a constructor. -/
+(`Gen.hazards = []`), and no field of any type mentions such a constructor.  One kind of item is
+listed separately (`Gen.benignStatics`) instead of being counted: a write-once `static` holding a
+compiled regular expression (`OnceLock<Regex>` / `LazyLock<Regex>` initialised by `Regex::new` of a
+pattern only) — a constant of the process that every thread sees with the same value, not state of a
+game; on the current tree that list is empty as well. -/
 theorem C18_immutable :
     (∀ m ∈ Gen.mutSelfMethods, m.2.2 = false) ∧
     Gen.hazards = [] ∧
